@@ -758,6 +758,25 @@ def _hexval(c):
     return T.iite(cin_range(c, 48, 57), T.iadd(c, -48), T.iite(cin_range(c, 97, 102), T.iadd(c, -87), T.iadd(c, -55)))
 
 
+_SHORT_NAMES = {}
+
+
+def _short_unicode_names(k):
+    """every Unicode character name or alias of exactly k <= 3 characters, by asking unicodedata.lookup for every candidate spelling"""
+    if not _SHORT_NAMES:
+        import unicodedata, itertools
+        al = 'ABCDEFGHIJKLMNOPQRSTUVWXYZ0123456789 -'
+        for kk in (1, 2, 3):
+            lst = []
+            for t in itertools.product(al, repeat=kk):
+                nm = ''.join(t)
+                try: r = unicodedata.lookup(nm)
+                except KeyError: continue
+                if len(r) == 1: lst.append((nm, ord(r)))
+            _SHORT_NAMES[kk] = lst
+    return _SHORT_NAMES[k]
+
+
 def unicode_escape_decode(s):
     """codecs.decode(bytes, unicode_escape) for ASCII input: single-character escapes, octal, hex 2/4/8 digits"""
     cs = chars_of(s); out = []; i = 0; n = len(cs)
@@ -786,8 +805,32 @@ def unicode_escape_decode(s):
                 if not decide(zor([cin_range(cs[j], 48, 57), cin_range(cs[j], 97, 102), cin_range(cs[j], 65, 70)])):
                     raise UnicodeDecodeError('unicodeescape', b'', i, n, 'truncated escape')
                 v = T.iadd(T.imulc(v, 16), _hexval(cs[j]))
+            if k == 8 and decide(T.ilt(0x10FFFF, v)):
+                raise UnicodeDecodeError('unicodeescape', b'', i, n, 'illegal Unicode character')
             out.append(v); i += 2 + k; continue
-        if decide(ceq(d, ord('N'))): raise Unsupported('\\N{...} escape on symbolic text')
+        if decide(ceq(d, ord('N'))):
+            # \N{name}: the name runs to the next '}' (CPython: "malformed \N character escape" without braces / with an empty name,
+            # "unknown Unicode character name" otherwise). Names of up to 3 characters are modelled exactly (table computed from
+            # unicodedata itself, aliases included, case-insensitive); a longer symbolic name is unsupported, a concrete one is looked up.
+            if i + 2 >= n or not decide(ceq(cs[i + 2], 123)):
+                raise UnicodeDecodeError('unicodeescape', b'', i, n, 'malformed \\N character escape')
+            j = i + 3
+            while j < n and not decide(ceq(cs[j], 125)): j += 1
+            if j >= n or j == i + 3:
+                raise UnicodeDecodeError('unicodeescape', b'', i, n, 'malformed \\N character escape')
+            name = cs[i + 3:j]
+            if all(isinstance(x, int) for x in name):
+                import unicodedata
+                try: cp = ord(unicodedata.lookup(''.join(map(chr, name))))
+                except KeyError: raise UnicodeDecodeError('unicodeescape', b'', i, n, 'unknown Unicode character name')
+                out.append(cp); i = j + 1; continue
+            if len(name) > 3: raise Unsupported('\\N{...} escape with a symbolic name longer than 3 characters')
+            hit = None
+            for cand, cp in _short_unicode_names(len(name)):
+                if decide(zand([zor([ceq(x, ord(ch)), ceq(x, ord(ch.lower()))]) for x, ch in zip(name, cand)])):
+                    hit = cp; break
+            if hit is None: raise UnicodeDecodeError('unicodeescape', b'', i, n, 'unknown Unicode character name')
+            out.append(hit); i = j + 1; continue
         out.append(c); i += 1       # unknown escape: the backslash stays
     return mkstr(out)
 
